@@ -232,6 +232,21 @@ def gen(tier, rng):
                     for k in range(0, 64 * r + 1):
                         mexp_cases(add, rng, kind, n, m, bes, r, k, i=k)
 
+    # ---- 1b. nilpotent bases: base^e = 0 (mod m) with base <> 0 needs a modulus that is not square-free and a base
+    #      divisible by its radical; the ladder then ends EXACTLY at m (the unreduced zero) before the final
+    #      conditional subtractions of the boxed form, and at a multiple of m inside the fixed form
+    for n in (1, 2, 3, 4):
+        R = 1 << (64 * n)
+        nil = [(9, 3), (9, 6), (25, 5), (27, 3), (45, 15), (225, 15), (693, 231), (3 ** 40, 3 ** 20 * 2), (3 ** 40, 3 ** 39)]
+        for q in ((1 << 61) - 1, (1 << 31) - 1, (1 << (32 * n)) - 1, 3 ** (20 * n)):
+            if q * q < R:
+                nil += [(q * q, q), (q * q, 7 * q % (q * q)), (q * q, (q * q - q))]
+        for (m, x) in nil:
+            if m >= R or m % 2 == 0: continue
+            for (e, k) in ((2, 2), (2, 64), (3, 2), (6, 3), (5, 64), (0xffff, 16)):
+                for kind in ('boxed', 'monty'):
+                    if kind == 'monty' and n not in FIXED_NS: continue
+                    pow_cases(add, rng, kind, n, m, x % m, e, 1, k, i=k)
     # ---- 2. pow: all width pairs, boundary k, the three representations on the same input where possible
     for n in FIXED_NS:
         for r in FIXED_NS:
